@@ -81,18 +81,11 @@ class EqModel:
             raise AnalysisError("Equilibrium helper methods missing: %s" % missing)
 
     def _arm(self, option):
-        for n in self.builder.node.body:
-            if isinstance(n, ast.If):
-                cur = n
-                while True:
-                    t = cur.test
-                    if (isinstance(t, ast.Compare) and isinstance(t.comparators[0], ast.Constant)
-                            and t.comparators[0].value == option):
-                        return cur.body
-                    if len(cur.orelse) == 1 and isinstance(cur.orelse[0], ast.If):
-                        cur = cur.orelse[0]
-                    else:
-                        break
+        from ..model import arm_for
+        arm = arm_for(self.builder.node.body, lambda t: isinstance(t, ast.Compare) and len(t.ops) == 1 and isinstance(t.ops[0], ast.Eq)
+                      and isinstance(t.comparators[0], ast.Constant) and t.comparators[0].value == option)
+        if arm is not None:
+            return arm
         raise AnalysisError("arm for option %r not found in %s" % (option, self.builder.qualname))
 
     def arms_available(self):
